@@ -115,9 +115,12 @@ func genLockBlock(t *rapid.T, cfg LockCfg, gs *lockGenState, focus string) LockB
 		}
 	}
 	if w("evRoll", nEv) == 0 {
-		b.Evidence = append(b.Evidence, EvSpec{V: anyVal("evV"), LC: rapid.Bool().Draw(t, "lc"),
-			AgeBlocks: int64(rapid.SampledFrom([]int{0, 1, int(cfg.EvBlocks) - 1, int(cfg.EvBlocks), int(cfg.EvBlocks) + 1, int(cfg.EvBlocks) + 5}).Draw(t, "ageB")),
-			AgeSec:    rapid.SampledFrom([]int{0, 1, cfg.EvSec - 1, cfg.EvSec, cfg.EvSec + 1, cfg.EvSec + 100}).Draw(t, "ageS")})
+		// one to three pieces of evidence in the block (expired and fresh ones mixed, the same validator more than once)
+		for i, k := 0, rapid.SampledFrom([]int{1, 1, 2, 3}).Draw(t, "nev"); i < k; i++ {
+			b.Evidence = append(b.Evidence, EvSpec{V: anyVal("evV"), LC: rapid.Bool().Draw(t, "lc"),
+				AgeBlocks: int64(rapid.SampledFrom([]int{0, 1, int(cfg.EvBlocks) - 1, int(cfg.EvBlocks), int(cfg.EvBlocks) + 1, int(cfg.EvBlocks) + 5}).Draw(t, "ageB")),
+				AgeSec:    rapid.SampledFrom([]int{0, 1, cfg.EvSec - 1, cfg.EvSec, cfg.EvSec + 1, cfg.EvSec + 100}).Draw(t, "ageS")})
+		}
 	}
 	if w("createRoll", nCreate) == 0 {
 		k := rapid.IntRange(1, 3).Draw(t, "ncreate")
